@@ -27,21 +27,8 @@ def run(ctx):
         geometry(ctx, kc, "C04.generic-geometry")
     from ..rules_misc import k21_match_overrides
     ctx.guard(k21_match_overrides, ctx, "C04")
-    n_screen = 0
-    for kc in inv:
-        if kc.role != "module":
-            continue
-        site, n, k = enzyme_geometry(kc.cutter)
-        pat = kc.pattern
-        if pat.three_adjacent_groups() is not None:
-            continue
-        (a1, b1), _, (a3, b3) = pat.groups
-        flank = pat.site_before(a1, site, n) and pat.site_after(b3, _rc(site), n)
-        if flank:
-            n_screen += 1
-            screen_obligation(ctx, kc, "C04.illegal-site-screen")
-        else:
-            r.note("%s keeps its sites inside the target by design: no screen obligation" % kc.name)
+    from ..rules_pattern import module_screen_rule
+    module_screen_rule(ctx, "C04.illegal-site-screen")
     r.floor("C04.illegal-site-screen", 60)
     for kc in inv:
         if kc.role == "vector":
